@@ -72,4 +72,58 @@ theorem sequencerByRollappByStatusKey_eq :
 /-- the decoder the source currently has is the exact (length-respecting) one -/
 theorem decodePacketKey_eq (s : Bytes) : Gen.Keys.decodePacketKey s = decodePacketKeyExact s := rfl
 
+-- time-sorted keys / sequencer key families -------------------------------------------------------
+
+theorem sequencerKey_eq : Gen.Keys.sequencerKey = sequencerKey := by
+  funext a; simp [Gen.Keys.sequencerKey, sequencerKey, sep]
+
+theorem proposerByRollappKey_eq : Gen.Keys.proposerByRollappKey = proposerByRollappKey := by
+  funext a; simp [Gen.Keys.proposerByRollappKey, proposerByRollappKey, sep]
+
+theorem successorByRollappKey_eq : Gen.Keys.successorByRollappKey = successorByRollappKey := by
+  funext a; simp [Gen.Keys.successorByRollappKey, successorByRollappKey, sep]
+
+theorem noticePeriodQueueKey_eq : Gen.Keys.noticePeriodQueueKey = noticePeriodQueueKey := rfl
+
+theorem noticeQueueByTimeKey_eq : Gen.Keys.noticeQueueByTimeKey = noticeQueueByTimeKey := by
+  funext t; rfl
+
+theorem noticeQueueBySeqTimeKey_eq : Gen.Keys.noticeQueueBySeqTimeKey = noticeQueueBySeqTimeKey := by
+  funext a t
+  simp [Gen.Keys.noticeQueueBySeqTimeKey, noticeQueueBySeqTimeKey, noticeQueueByTimeKey_eq, sep]
+
+/-- `utils.EncodeTimeToKey` (make + two copies = prefix followed by `sdk.FormatTimeBytes(endTime)`):
+    the statement listing `Keys.encodeTimeToKey` was written against -/
+theorem encodeTimeToKey_listing : Gen.Keys.encodeTimeToKeyListing =
+  ["func EncodeTimeToKey(queueKey []byte, endTime time.Time) []byte",
+   "  timeBz := sdk.FormatTimeBytes(endTime)",
+   "  prefixL := len(queueKey)",
+   "  bz := make([]byte, prefixL+len(timeBz))",
+   "  copy(bz[:prefixL], queueKey)",
+   "  copy(bz[prefixL:], timeBz)",
+   "  return bz"] := rfl
+
+/-- the iterator bounds `Keys.noticeQueueRange` mirrors:
+    `store.Iterator(NoticePeriodQueueKey, PrefixEndBytes(NoticeQueueByTimeKey(*endTime)))` -/
+theorem noticeQueue_listing : Gen.Keys.noticeQueueListing =
+  ["func (k Keeper) NoticeQueue(ctx sdk.Context, endTime *time.Time) ([]types.Sequencer, error)",
+   "  ret := []types.Sequencer{}",
+   "  store := ctx.KVStore(k.storeKey)",
+   "  prefix := types.NoticePeriodQueueKey",
+   "  if endTime != nil",
+   "    prefix = types.NoticeQueueByTimeKey(*endTime)",
+   "  iterator := store.Iterator(types.NoticePeriodQueueKey, storetypes.PrefixEndBytes(prefix))",
+   "  defer iterator.Close()",
+   "  for ; iterator.Valid(); iterator.Next()",
+   "    addr := string(iterator.Value())",
+   "    seq, err := k.RealSequencer(ctx, string(iterator.Value()))",
+   "    if err != nil",
+   "      return nil, gerrc.ErrInternal",
+   "    ret = append(ret, seq)",
+   "  return ret, nil"] := rfl
+
+theorem noticeElapsedProposers_listing : Gen.Keys.noticeElapsedProposersListing =
+  ["func (k Keeper) NoticeElapsedProposers(ctx sdk.Context, endTime time.Time) ([]types.Sequencer, error)",
+   "  return k.NoticeQueue(ctx, &endTime)"] := rfl
+
 end DymVerif.GenEq
